@@ -29,6 +29,7 @@ IntV(p)  == [t |-> "int", p |-> p]
 Bulk(p) == [t |-> "bulk", p |-> p]
 Null    == [t |-> "null"]
 Arr(e)  == [t |-> "arr", e |-> e]
+NArr    == [t |-> "narr"]          \* the RESP2 null array *-1: decoded, never produced by this server's constructors
 
 IsDigit(x) == x >= 48 /\ x <= 57
 
@@ -73,6 +74,7 @@ Enc(v) ==
     [] v.t = "int"  -> <<COLON>> \o v.p \o CRLF
     [] v.t = "bulk" -> <<DOLLAR>> \o NatDigits(Len(v.p)) \o CRLF \o v.p \o CRLF
     [] v.t = "null" -> <<DOLLAR, MINUS, 49>> \o CRLF
+    [] v.t = "narr" -> <<STAR, MINUS, 49>> \o CRLF
     [] v.t = "arr"  -> <<STAR>> \o NatDigits(Len(v.e)) \o CRLF
                          \o Concat([k \in 1..Len(v.e) |-> Enc(v.e[k])])
 
@@ -120,6 +122,7 @@ Dec(b, i) ==
     ELSE IF ty = STAR THEN
       LET r == DecLine(b, i + 1) IN
       IF ~r.ok THEN r
+      ELSE IF r.v = <<MINUS, 49>> THEN DOk(NArr, r.next)
       ELSE IF ~CanonNat(r.v) THEN DFail("bad", i + 1)
       ELSE IF Len(r.v) > 9 THEN DFail("huge", i + 1)
       ELSE DecElems(b, r.next, ParseNat(r.v), <<>>)
@@ -138,6 +141,12 @@ DecStreamR(b, i, acc) ==
        IF r.ok THEN DecStreamR(b, r.next, Append(acc, r.v))
        ELSE [vals |-> acc, st |-> r.why, at |-> r.at, from |-> i]     \* from: where the value that did not decode starts
 DecStream(b) == DecStreamR(b, 1, <<>>)
+
+\* named leniency of the implementation: the parser hands out a null array as an empty array
+RECURSIVE Lenient(_)
+Lenient(v) == IF v.t = "narr" THEN Arr(<<>>)
+              ELSE IF v.t = "arr" THEN Arr([k \in 1..Len(v.e) |-> Lenient(v.e[k])]) ELSE v
+LenientSeq(s) == [k \in 1..Len(s) |-> Lenient(s[k])]
 
 OneFrame(b) == LET r == Dec(b, 1) IN r.ok /\ r.next = Len(b) + 1
 Frames(b)   == DecStream(b).st = "complete"
